@@ -179,6 +179,115 @@ theorem emitted_url_served (ops : List Op) (hf : FreshHistory { classes := [], c
     Inv (run { classes := [], cache := [] } ops) :=
   inv_run ops _ inv_init hf
 
+/-! ### a page: several components rendered before the browser fetches anything -/
+
+/-- guarded insertion (`if not cache.has_key(key): cache.set(key, …)`) never changes what a key already held -/
+theorem guarded_set_keeps (cache : List (Str × Str)) (k k' : Str) (v v' : Str) (h : alookup k cache = some v) :
+    alookup k (if !(ahas k' cache) then aset k' v' cache else cache) = some v := by
+  by_cases hk : k = k'
+  · subst hk
+    have : ahas k cache = true := by simp [ahas, h]
+    simp [this, h]
+  · split
+    · rw [alookup_aset_ne v' cache hk]; exact h
+    · exact h
+
+theorem cacheScript_keeps (s : State) (h : Str) (c : Cls) (kind k v : Str) (hk : alookup k s.cache = some v) :
+    alookup k (cacheScript s h c kind).cache = some v ∧ (cacheScript s h c kind).classes = s.classes := by
+  unfold cacheScript
+  cases script c kind with
+  | none => exact ⟨hk, rfl⟩
+  | some src =>
+    simp only
+    by_cases hne : nonemptyStr (some src) = true
+    · by_cases hh : ahas (genKey h kind none) s.cache = true
+      · simp [hne, hh, hk]
+      · have hh' : ahas (genKey h kind none) s.cache = false := by simpa using hh
+        simp only [hne, hh', Bool.not_false, Bool.and_self, ↓reduceIte]
+        refine ⟨?_, trivial⟩
+        have := guarded_set_keeps s.cache k (genKey h kind none) v (strip src) hk
+        simpa [hh'] using this
+    · have hne' : nonemptyStr (some src) = false := by simpa using hne
+      simp [hne', hk]
+
+theorem cacheVars_keeps (s : State) (h : Str) (c : Cls) (kind : Str) (input : Option Str) (k v : Str)
+    (hk : alookup k s.cache = some v) :
+    alookup k (cacheVars s h c kind input).cache = some v ∧ (cacheVars s h c kind input).classes = s.classes := by
+  unfold cacheVars
+  cases input with
+  | none => exact ⟨hk, rfl⟩
+  | some i =>
+    simp only
+    by_cases hne : nonemptyStr (script c kind) = true
+    · by_cases hh : ahas (genKey h kind (some i)) s.cache = true
+      · simp [hne, hh, hk]
+      · have hh' : ahas (genKey h kind (some i)) s.cache = false := by simpa using hh
+        simp only [hne, hh', Bool.not_false, Bool.and_self, ↓reduceIte]
+        refine ⟨?_, trivial⟩
+        have := guarded_set_keeps s.cache k (genKey h kind (some i)) v [] hk
+        simpa [hh'] using this
+    · have hne' : nonemptyStr (script c kind) = false := by simpa using hne
+      simp [hne', hk]
+
+/-- a render never changes an entry the cache already holds, nor the class table -/
+theorem render_keeps (s : State) (h : Str) (ji ci : Option Str) (k v : Str) (hk : alookup k s.cache = some v) :
+    alookup k (render s h ji ci).1.cache = some v ∧ (render s h ji ci).1.classes = s.classes := by
+  unfold render
+  cases alookup h s.classes with
+  | none => exact ⟨hk, rfl⟩
+  | some c =>
+    simp only
+    obtain ⟨a1, b1⟩ := cacheScript_keeps s h c jsK k v hk
+    obtain ⟨a2, b2⟩ := cacheVars_keeps _ h c jsK ji k v a1
+    obtain ⟨a3, b3⟩ := cacheScript_keeps _ h c cssK k v a2
+    obtain ⟨a4, b4⟩ := cacheVars_keeps _ h c cssK ci k v a3
+    exact ⟨a4, by rw [b4, b3, b2, b1]⟩
+
+/-- **A URL that is served stays served through every later render** (the model's cache only grows between clears —
+true of the code since `/repo` 22db8d7; before it the built-in cache culled a third of its entries at 300, and this
+statement failed on the code: `findings/C19-media-cache-cull.json`, stream `many-entries`). -/
+theorem served_stays_served (s : State) (path : Str) (body ct : Str) (h : Str) (ji ci : Option Str)
+    (hs : serve s path true = .ok body ct) : serve (render s h ji ci).1 path true = .ok body ct := by
+  unfold serve at hs ⊢
+  cases hr : resolve path with
+  | none => simp [hr] at hs
+  | some r =>
+    obtain ⟨h0, input, kind⟩ := r
+    simp only [hr] at hs ⊢
+    by_cases hct : ahas kind contentTypes = true
+    · simp only [hct, Bool.not_true, Bool.false_eq_true, ↓reduceIte] at hs ⊢
+      cases hc : alookup h0 s.classes with
+      | none => simp [hc] at hs
+      | some c0 =>
+        simp only [hc] at hs
+        cases hk : alookup (genKey h0 kind input) s.cache with
+        | none => simp [hk] at hs
+        | some b0 =>
+          obtain ⟨a, b⟩ := render_keeps s h ji ci _ _ hk
+          simp only [hk] at hs
+          rw [b, hc]
+          simp only [a]
+          exact hs
+    · have : ahas kind contentTypes = false := by simpa using hct
+      simp [this] at hs
+
+/-- **Every URL emitted while a page is rendered is served when the page is done**: the first component's URLs answer
+as they did right after its own render, however many further components the same page (or later pages) render. -/
+theorem page_urls_served (s : State) (path body ct : Str) (hs : serve s path true = .ok body ct) :
+    ∀ (rest : List (Str × Option Str × Option Str)),
+      serve (rest.foldl (fun st r => (render st r.1 r.2.1 r.2.2).1) s) path true = .ok body ct
+  | [] => hs
+  | r :: rest => page_urls_served _ path body ct (served_stays_served s path body ct r.1 r.2.1 r.2.2 hs) rest
+
+/-- instance (kernel-evaluated): component `A_1` rendered, then `B_2` on the same page — `A_1`'s script URL answers -/
+example :
+    let s0 : State := { classes := [("A_1".toList, { js := some "a();".toList, css := none }),
+                                    ("B_2".toList, { js := some "b();".toList, css := some ".b{}".toList })], cache := [] }
+    let s1 := (render s0 "A_1".toList none none).1
+    serve s1 (mkUrl "A_1".toList none jsK) true = .ok "a();".toList "text/javascript".toList ∧
+    serve (render s1 "B_2".toList none (some "abc".toList)).1 (mkUrl "A_1".toList none jsK) true =
+      .ok "a();".toList "text/javascript".toList := by decide +kernel
+
 /-- The endpoint never fails with a server error, for any state, path and method. -/
 theorem endpoint_total (s : State) (path : Str) (isGet : Bool) : serve s path isGet ≠ .serverError := by
   unfold serve
